@@ -125,6 +125,18 @@ def gen_text(rng, exotic):
     return "".join(out)
 
 
+def gen_repetitive(rng):
+    """Highly compressible text: a few compressed bytes inflate into hundreds of characters (the shape of real
+    datasets with long runs of identical rows)."""
+    row = "".join(rng.choice(WORDS) for _ in range(2 + rng.randrange(6))) or "0,0,0"
+    eol = weighted(rng, [("\n", 2), ("\r\n", 1)])
+    n = weighted(rng, [(40, 2), (150, 2), (400, 1)])
+    lines = [row] * n
+    for _ in range(rng.randrange(4)):
+        lines[rng.randrange(n)] = row + rng.choice(WORDS)
+    return eol.join(lines) + (eol if rng.random() < 0.7 else "")
+
+
 def gen_table(rng):
     fmt = weighted(rng, [("csv", 3), ("arff", 3), ("libsvm", 2), ("manik", 1)])
     n_rows, n_cols = 1 + rng.randrange(4), 1 + rng.randrange(3)
@@ -195,7 +207,7 @@ class C12:
     prop = "C12"
     level = "fault_enumeration"
     design_ref = "DESIGN.md 3.8"
-    tiers = {"quick": {"runs": 100000, "budget_s": 80, "chunk": 250, "twice_every": 0, "shrink_s": 30},
+    tiers = {"quick": {"runs": 50000, "budget_s": 80, "chunk": 250, "twice_every": 0, "shrink_s": 30},
              "thorough": {"runs": 2000000, "budget_s": 840, "chunk": 400, "twice_every": 0, "shrink_s": 60}}
     rule = ("delivery: one evaluation = one payload (adversarial text with LF/CRLF/lone CR/blank lines/unterminated last line, 2-4 byte "
             "UTF-8 characters, occasionally other Unicode line boundaries; or a small table serialised as RFC-4180 CSV / dense ARFF / "
@@ -212,9 +224,11 @@ class C12:
     stub_components = ["urllib.request.urlopen and the HTTP response object (SimServer / SimResponse)"]
 
     def gen(self, rng, tier, index):
-        kind = weighted(rng, [("text", 6), ("table", 2), ("disk", 2)])
+        kind = weighted(rng, [("text", 6), ("table", 2), ("disk", 2), ("repetitive", 0.6)])
         if kind == "text":
             return {"kind": kind, "text": gen_text(rng, exotic=rng.random() < 0.25), "short_seed": rng.randrange(1 << 30)}
+        if kind == "repetitive":
+            return {"kind": "text", "text": gen_repetitive(rng), "short_seed": rng.randrange(1 << 30)}
         if kind == "table":
             t = gen_table(rng)
             t.update(kind=kind, short_seed=rng.randrange(1 << 30))
@@ -253,7 +267,13 @@ class C12:
         for enc in (None, "gzip", "deflate"):
             wire = encode_wire(raw, enc)
             srv.wire, srv.enc, srv.charset, srv.plan = wire, enc, "utf-8", None
-            for size in range(1, len(wire) + 2):
+            sizes = range(1, len(wire) + 2)
+            if len(wire) > 700:
+                # long uncompressed payloads: all small sizes, the sizes around the length, and a seeded sample of the rest
+                rs = random.Random(cfg["short_seed"] ^ len(wire))
+                sizes = sorted(set(range(1, 97)) | {len(wire) - 1, len(wire), len(wire) + 1} | {rs.randrange(97, len(wire)) for _ in range(60)})
+                out["extra"]["payloads_with_sampled_chunk_sizes"] = 1
+            for size in sizes:
                 n += 1
                 v = self._one(HttpSource("http://sim/x", chunk_size=size), expected, f"encoding={enc or 'identity'} chunk_size={size}", text, size, raw if enc is None else None)
                 if v is not None:
